@@ -668,7 +668,7 @@ class FnCheck:
         g = Graph(self.fn, [B])
         edges = _filtered_edges(g, assume, cut)
         ok, msg, q, s = self._witness(g, edges, B.name, B)
-        return Result("holds" if ok else "violated", msg or "sat: reachable", queries=q, seconds=s,
+        return Result("holds" if ok else "inconclusive", msg or "sat: reachable", queries=q, seconds=s,
                       sample={"fn": self.name, "kind": "REACHABLE", "B": B.name})
 
     def count(self, ev):
